@@ -34,6 +34,8 @@ type ClientCase struct {
 	MaxConns  int    `json:"max_conns_per_host"`
 	Reqs      []CReq `json:"reqs"`
 	Threads   int    `json:"threads"`
+	// ConcurrentDo (pipelined only): the requests are issued by Threads goroutines sharing the ClientConn
+	ConcurrentDo bool `json:"concurrent_do,omitempty"`
 }
 
 func cbyte(id, i int) byte { return byte('k' + (id*17+i+(i>>11))%13) }
@@ -152,8 +154,25 @@ func runClient(c ClientCase) vlib.Result {
 	timeout := 700 * time.Millisecond
 	if c.Pipelined {
 		cc := &nbhttp.ClientConn{Engine: engine, Timeout: timeout}
-		for i, q := range c.Reqs {
-			cc.Do(mkReq(i, q), handler(i, q))
+		if c.ConcurrentDo && c.Threads > 1 {
+			// several goroutines share the ClientConn: registering a callback and writing its request
+			// must be one step, or responses (matched by order) reach the wrong callbacks
+			res.Classes = append(res.Classes, "concurrent Do on one ClientConn")
+			var wg sync.WaitGroup
+			for th := 0; th < c.Threads; th++ {
+				wg.Add(1)
+				go func(th int) {
+					defer wg.Done()
+					for i := th; i < len(c.Reqs); i += c.Threads {
+						cc.Do(mkReq(i, c.Reqs[i]), handler(i, c.Reqs[i]))
+					}
+				}(th)
+			}
+			wg.Wait()
+		} else {
+			for i, q := range c.Reqs {
+				cc.Do(mkReq(i, q), handler(i, q))
+			}
 		}
 		defer cc.Close()
 	} else {
@@ -239,6 +258,10 @@ func genClient(t *rapid.T) ClientCase {
 			q.Behave = rapid.SampledFrom([]string{"stall", "cut"}).Draw(t, "behave")
 		}
 		c.Reqs = append(c.Reqs, q)
+	}
+	if c.Pipelined && len(c.Reqs) >= 2 && c.Threads > 1 && rapid.Bool().Draw(t, "concurrentdo") {
+		c.ConcurrentDo = true
+		return c
 	}
 	if c.Pipelined && len(c.Reqs) >= 2 && rapid.IntRange(0, 5).Draw(t, "slowcb") == 0 {
 		// a slow callback in front of a request the server never answers: that one times out while the
